@@ -302,6 +302,8 @@ func RunProperty(cfg Config, cases []Case) int {
 			"obligations":                   nObl,
 			"discharged":                    nValid + nWitnessed,
 			"obligations_valid":             nValid,
+			"valid_checks_discharged_by_solver_query":   int(queries["valid_queries"]),
+			"valid_checks_reduced_to_true_by_normal_form": int(queries["syntactic_valid"]),
 			"obligations_witnessed":         nWitnessed,
 			"obligations_violated":          nViol,
 			"obligations_inconclusive":      nInconc,
